@@ -48,12 +48,20 @@ Proof. intros H. unfold KK, kz. rewrite H. reflexivity. Qed.
 Lemma st_has_true st x r : st_has st (kz x r) = true <-> KK st x r <> None.
 Proof. unfold st_has, KK. destruct (st_get st (kz x r)); split; intros; congruence. Qed.
 
-(* ------------------------------------------------------------------ faults *)
+(* ------------------------------------------------------------------ faults, absences, timeouts *)
 Definition io_fault (x : inst) : Prop := exists f, (f < i_W x)%nat /\ iofails x f = true.
 Definition has_fault (x : inst) : Prop := io_fault x \/ i_metafail x = true.
+Definition has_absent (x : inst) : Prop := exists a, (a < i_W x)%nat /\ absent x a = true.
+Definition timed_out (x : inst) : Prop := exists r, (r < i_W x)%nat /\ i_tmo x r = true.
+(* what can make a rank raise: a fault of the plan, or a timeout step *)
+Definition cause (x : inst) : Prop := has_fault x \/ timed_out x.
+(* what excludes the commit for ever: a fault of the plan, an absent rank, or a timeout of the LEADER (in arrive) *)
+Definition global_cause (x : inst) : Prop := has_fault x \/ has_absent x \/ i_tmo x 0%nat = true.
 
 Definition bad_pc (p : pc) : bool :=
   match p with PErrReport | PHandler | PRaised => true | _ => false end.
+Definition raised_pc (p : pc) : bool :=
+  match p with PHandler | PRaised => true | _ => false end.
 
 (* ------------------------------------------------------------------ the invariant of one instance *)
 Definition leader_ok (st : store) (x : inst) : Prop :=
@@ -71,18 +79,20 @@ Definition leader_ok (st : store) (x : inst) : Prop :=
              (forall j, (j < i_W x)%nat -> i_iodone x j = true)
   | PHandler => KK st x 0 <> Some VOk /\ i_meta x = false
   | PRaised => KK st x 0 = Some VErr /\ i_meta x = false
+  | PAbsent => KK st x 0 = None /\ i_meta x = false
   | PDepartGet => False
   end.
 
 Definition peer_ok_v (p : pc) (Kr K0 : option value) (d : bool) : Prop :=
   match p with
-  | PIo => Kr = None
+  | PIo => Kr = None /\ d = false
   | PArrive => Kr = None /\ d = true
   | PDepart => Kr = Some VOk /\ d = true
   | PDepartGet => Kr = Some VOk /\ d = true /\ K0 <> None
-  | PHandler => Kr = None \/ (Kr = Some VOk /\ d = true)
+  | PHandler => (Kr = None /\ d = false) \/ (Kr = Some VOk /\ d = true)
   | PRaised => Kr = Some VErr
   | PDone => Kr = Some VOk /\ d = true /\ K0 = Some VOk
+  | PAbsent => Kr = None /\ d = false
   | PGet _ | PErrReport | PMeta => False
   end.
 
@@ -93,13 +103,22 @@ Record Inv (st : store) (x : inst) : Prop := {
   inv_leader : leader_ok st x;
   inv_peer : forall r, (1 <= r < i_W x)%nat -> peer_ok st x r;
   inv_io : forall r, i_iodone x r = true -> iofails x r = false;
-  inv_err_key : forall r, KK st x r = Some VErr -> has_fault x;
-  inv_err_pc : forall r, (r < i_W x)%nat -> bad_pc (i_pcs x r) = true -> has_fault x }.
+  inv_err_key : forall r, KK st x r = Some VErr -> cause x;
+  inv_err_pc : forall r, (r < i_W x)%nat -> bad_pc (i_pcs x r) = true -> cause x;
+  (* a rank is PAbsent exactly when the plan says so; an absent rank's I/O is never done *)
+  inv_absent : forall r, (r < i_W x)%nat ->
+     (i_pcs x r = PAbsent <-> absent x r = true) /\ (i_pcs x r = PAbsent -> i_iodone x r = false);
+  (* a rank whose wait timed out is in the handler or has raised *)
+  inv_tmo : forall r, i_tmo x r = true -> (r < i_W x)%nat /\ raised_pc (i_pcs x r) = true;
+  (* why a PEER raises: its own timeout, or the leader has raised (the peer read the leader's error key), or
+     its own I/O failed *)
+  inv_peer_cause : forall r, (1 <= r < i_W x)%nat -> bad_pc (i_pcs x r) = true ->
+     i_tmo x r = true \/ bad_pc (i_pcs x 0%nat) = true \/ (i_iodone x r = false /\ iofails x r = true) }.
 
 (* the invariant reads the store only through the keys of its own prefix *)
 Lemma Inv_ext st st' x : (forall r, KK st' x r = KK st x r) -> Inv st x -> Inv st' x.
 Proof.
-  intros E [HL HP HIO HK HPC]. split.
+  intros E [HL HP HIO HK HPC HA HT HC]. split.
   - unfold leader_ok in *. destruct (i_pcs x 0%nat); rewrite ?E; try exact HL.
     destruct HL as (A & B & C & D & F). repeat split; try assumption; try lia.
     intros j Hj. rewrite E. exact (F j Hj).
@@ -107,17 +126,25 @@ Proof.
   - exact HIO.
   - intros r. rewrite E. exact (HK r).
   - exact HPC.
+  - exact HA.
+  - exact HT.
+  - exact HC.
 Qed.
 
 Lemma Inv_init st sp : (forall r, st_get st (sp_prefix sp, r) = None) -> Inv st (mk_inst sp).
 Proof.
   intros F. assert (FK : forall r, KK st (mk_inst sp) r = None) by (intros r; apply F).
   split.
-  - unfold leader_ok. cbn. split; [apply FK|reflexivity].
-  - intros r _. unfold peer_ok. cbn. apply FK.
+  - unfold leader_ok. cbn [i_pcs mk_inst i_meta]. destruct (existsb (Nat.eqb 0) (sp_absent sp)); (split; [apply FK|reflexivity]).
+  - intros r _. unfold peer_ok. cbn [i_pcs mk_inst i_iodone]. rewrite FK.
+    destruct (existsb (Nat.eqb r) (sp_absent sp)); cbn; auto.
   - cbn. discriminate.
   - intros r. rewrite FK. discriminate.
+  - intros r _. cbn [i_pcs mk_inst]. destruct (existsb (Nat.eqb r) (sp_absent sp)); discriminate.
+  - intros r _. unfold absent. cbn [i_pcs mk_inst i_absent i_iodone].
+    destruct (existsb (Nat.eqb r) (sp_absent sp)); repeat split; auto; discriminate.
   - cbn. discriminate.
+  - intros r _. cbn [i_pcs mk_inst]. destruct (existsb (Nat.eqb r) (sp_absent sp)); discriminate.
 Qed.
 
 (* ------------------------------------------------------------------ frame facts about one step *)
@@ -138,8 +165,59 @@ Proof.
   all: intros y q Hy; try reflexivity; apply KK_other_prefix; assumption.
 Qed.
 
+Lemma istep_frame2 st x r st' x' o : istep st x r = Some (st', x', o) ->
+  i_absent x' = i_absent x /\ i_tmo x' = i_tmo x.
+Proof.
+  unfold istep. destruct (r <? i_W x)%nat eqn:Hr; cbn [negb]; [|discriminate].
+  destruct (i_pcs x r) eqn:Hpc.
+  all: repeat match goal with
+       | |- context [if ?c then _ else _] => destruct c eqn:?
+       | |- context [match st_get ?a ?b with _ => _ end] => destruct (st_get a b) as [[|]|]
+       end.
+  all: intros H; inversion H; subst; clear H.
+  all: split; reflexivity.
+Qed.
+
+(* a timeout step: who, where, and what it does *)
+Lemma itimeout_spec st x r st' x' o : itimeout st x r = Some (st', x', o) ->
+  (r < i_W x)%nat /\ st' = st /\ x' = set_tmo (set_pc x r PHandler) r /\
+  ((r = 0%nat /\ i_pcs x r = PArrive /\ o = OTimeout (i_prefix x) (peers (i_W x))) \/
+   (r <> 0%nat /\ i_pcs x r = PDepart /\ o = OTimeout (i_prefix x) [0%nat])).
+Proof.
+  unfold itimeout. destruct (r <? i_W x)%nat eqn:Hr; cbn [negb]; [|discriminate].
+  apply Nat.ltb_lt in Hr.
+  destruct (i_pcs x r) eqn:Hpc; try discriminate.
+  all: destruct (Nat.eqb_spec r 0); try discriminate.
+  all: intros H; inversion H; subst; clear H; repeat split; auto.
+Qed.
+
+Lemma itimeout_frame st x r st' x' o : itimeout st x r = Some (st', x', o) ->
+  i_prefix x' = i_prefix x /\ i_W x' = i_W x /\ i_iofail x' = i_iofail x /\ i_metafail x' = i_metafail x /\
+  (r < i_W x)%nat /\
+  (forall y q, i_prefix y <> i_prefix x -> KK st' y q = KK st y q).
+Proof.
+  intros H. destruct (itimeout_spec _ _ _ _ _ _ H) as (Hr & -> & -> & _).
+  repeat split; auto.
+Qed.
+
+Lemma iact_frame k st x r st' x' o : iact k st x r = Some (st', x', o) ->
+  i_prefix x' = i_prefix x /\ i_W x' = i_W x /\ i_iofail x' = i_iofail x /\ i_metafail x' = i_metafail x /\
+  (r < i_W x)%nat /\
+  (forall y q, i_prefix y <> i_prefix x -> KK st' y q = KK st y q).
+Proof. destruct k; [apply istep_frame|apply itimeout_frame]. Qed.
+
+Lemma iact_absent k st x r st' x' o : iact k st x r = Some (st', x', o) -> i_absent x' = i_absent x.
+Proof.
+  destruct k; cbn [iact]; intros H.
+  - exact (proj1 (istep_frame2 _ _ _ _ _ _ H)).
+  - destruct (itimeout_spec _ _ _ _ _ _ H) as (_ & _ & -> & _). reflexivity.
+Qed.
+
 Lemma iofails_frame x x' r : i_iofail x' = i_iofail x -> iofails x' r = iofails x r.
 Proof. unfold iofails. intros ->. reflexivity. Qed.
+
+Lemma absent_frame x x' r : i_absent x' = i_absent x -> absent x' r = absent x r.
+Proof. unfold absent. intros ->. reflexivity. Qed.
 
 Lemma has_fault_frame x x' : i_W x' = i_W x -> i_iofail x' = i_iofail x -> i_metafail x' = i_metafail x ->
   has_fault x -> has_fault x'.
@@ -147,6 +225,16 @@ Proof.
   intros HW HF HM [[f [Hf1 Hf2]]|H].
   - left. exists f. rewrite HW. split; [assumption|]. rewrite (iofails_frame x x' f HF). assumption.
   - right. congruence.
+Qed.
+
+Lemma timed_out_mono x x' : i_W x' = i_W x -> (forall q, i_tmo x q = true -> i_tmo x' q = true) ->
+  timed_out x -> timed_out x'.
+Proof. intros HW HT [q [Hq1 Hq2]]. exists q. rewrite HW. auto. Qed.
+
+Lemma cause_frame x x' : i_W x' = i_W x -> i_iofail x' = i_iofail x -> i_metafail x' = i_metafail x ->
+  (forall q, i_tmo x q = true -> i_tmo x' q = true) -> cause x -> cause x'.
+Proof.
+  intros HW HF HM HT [H|H]; [left; apply (has_fault_frame x x'); assumption|right; apply (timed_out_mono x x'); assumption].
 Qed.
 
 (* ------------------------------------------------------------------ preservation of the invariant by one step *)
@@ -173,18 +261,19 @@ Proof.
   all: intros H; decompose [and] H; clear H; repeat split; auto; try lia.
 Qed.
 
-Lemma has_fault_io x r : (r < i_W x)%nat -> iofails x r = true -> has_fault x.
-Proof. intros H1 H2. left. exists r. split; assumption. Qed.
+Lemma cause_io x r : (r < i_W x)%nat -> iofails x r = true -> cause x.
+Proof. intros H1 H2. left. left. exists r. split; assumption. Qed.
 
 (* the parts of the invariant that do not distinguish leader and peers *)
 Lemma istep_inv_misc st x r st' x' o : Inv st x -> istep st x r = Some (st', x', o) ->
   (forall q, i_iodone x' q = true -> iofails x' q = false) /\
-  (forall q, KK st' x' q = Some VErr -> has_fault x') /\
-  (forall q, (q < i_W x')%nat -> bad_pc (i_pcs x' q) = true -> has_fault x').
+  (forall q, KK st' x' q = Some VErr -> cause x') /\
+  (forall q, (q < i_W x')%nat -> bad_pc (i_pcs x' q) = true -> cause x').
 Proof.
-  intros [HL HP HIO HK HPC] Hs.
+  intros [HL HP HIO HK HPC _ _ _] Hs.
   pose proof (istep_frame _ _ _ _ _ _ Hs) as (Fp & FW & FF & FM & Hr & _).
-  assert (HF : has_fault x -> has_fault x') by (apply has_fault_frame; assumption).
+  pose proof (istep_frame2 _ _ _ _ _ _ Hs) as (_ & FT).
+  assert (HF : cause x -> cause x') by (apply cause_frame; try assumption; rewrite FT; auto).
   assert (HKx : forall s q, KK s x' q = KK s x q) by (intros s q; apply KK_prefix; assumption).
   unfold istep in Hs. destruct (r <? i_W x)%nat eqn:E; cbn [negb] in Hs; [|discriminate]. clear E.
   destruct (i_pcs x r) eqn:Hpc; istep_cases Hs.
@@ -203,9 +292,9 @@ Proof.
   all: intros q Hq; cbn [i_pcs set_pc set_iodone set_meta]; destruct (Nat.eqb_spec q r);
        [subst q; intros Hb;
         first [ discriminate Hb
-              | apply HF, (has_fault_io x r Hr); assumption
+              | apply HF, (cause_io x r Hr); assumption
               | apply HF, (HPC r Hr); rewrite Hpc; reflexivity
-              | apply HF; right; assumption
+              | apply HF; left; right; assumption
               | apply HF; eapply HK; unfold KK; eassumption ]
        |intros Hb; apply HF, (HPC q); [rewrite <- FW; exact Hq|exact Hb]].
 Qed.
@@ -223,7 +312,7 @@ Proof. destruct p; cbn; intuition congruence. Qed.
 (* leader step, leader clause *)
 Lemma leader_step_leader st x st' x' o : Inv st x -> istep st x 0 = Some (st', x', o) -> leader_ok st' x'.
 Proof.
-  intros [HL HP HIO HK HPC] Hs.
+  intros [HL HP HIO HK HPC _ _ _] Hs.
   pose proof (istep_frame _ _ _ _ _ _ Hs) as (Fp & FW & FF & FM & Hr & _).
   assert (HKx : forall s q, KK s x' q = KK s x q) by (intros s q; apply KK_prefix; assumption).
   unfold istep in Hs. destruct (0 <? i_W x)%nat eqn:E; cbn [negb] in Hs; [|discriminate]. clear E.
@@ -250,7 +339,7 @@ Qed.
 Lemma leader_step_peer st x st' x' o r : Inv st x -> istep st x 0 = Some (st', x', o) ->
   (1 <= r < i_W x)%nat -> peer_ok st' x' r.
 Proof.
-  intros [HL HP HIO HK HPC] Hs Hr1.
+  intros [HL HP HIO HK HPC _ _ _] Hs Hr1.
   pose proof (istep_frame _ _ _ _ _ _ Hs) as (Fp & FW & FF & FM & Hr & _).
   assert (HKx : forall s q, KK s x' q = KK s x q) by (intros s q; apply KK_prefix; assumption).
   specialize (HP r Hr1). unfold peer_ok in *.
@@ -267,7 +356,7 @@ Qed.
 (* peer step, leader clause *)
 Lemma peer_step_leader st x st' x' o n : Inv st x -> istep st x (S n) = Some (st', x', o) -> leader_ok st' x'.
 Proof.
-  intros [HL HP HIO HK HPC] Hs.
+  intros [HL HP HIO HK HPC _ _ _] Hs.
   pose proof (istep_frame _ _ _ _ _ _ Hs) as (Fp & FW & FF & FM & Hr & _).
   assert (HKx : forall s q, KK s x' q = KK s x q) by (intros s q; apply KK_prefix; assumption).
   assert (HPr := HP (S n) ltac:(lia)). unfold peer_ok in HPr.
@@ -287,7 +376,7 @@ Lemma eqb_S0 n : Nat.eqb (S n) 0 = false. Proof. reflexivity. Qed.
 Lemma peer_step_peer st x st' x' o n r : Inv st x -> istep st x (S n) = Some (st', x', o) ->
   (1 <= r < i_W x)%nat -> peer_ok st' x' r.
 Proof.
-  intros [HL HP HIO HK HPC] Hs Hr1.
+  intros [HL HP HIO HK HPC _ _ _] Hs Hr1.
   pose proof (istep_frame _ _ _ _ _ _ Hs) as (Fp & FW & FF & FM & Hr & _).
   assert (HKx : forall s q, KK s x' q = KK s x q) by (intros s q; apply KK_prefix; assumption).
   assert (HPr := HP (S n) ltac:(lia)). specialize (HP r Hr1). unfold peer_ok in *.
@@ -302,37 +391,161 @@ Proof.
   all: unfold KK in *; cbn [peer_ok_v] in *; intuition congruence.
 Qed.
 
+Lemma eqb_0S_gen r : (1 <= r)%nat -> Nat.eqb 0 r = false.
+Proof. intros H. apply Nat.eqb_neq. lia. Qed.
+
+(* ------------------------------------------------------------------ the clauses about absence, timeouts and the
+   reason why a peer raises *)
+Lemma istep_shape st x r st' x' o : istep st x r = Some (st', x', o) ->
+  (forall q, q <> r -> i_pcs x' q = i_pcs x q) /\
+  i_pcs x r <> PAbsent /\ i_pcs x' r <> PAbsent /\
+  (bad_pc (i_pcs x r) = true -> bad_pc (i_pcs x' r) = true) /\
+  (raised_pc (i_pcs x r) = true -> raised_pc (i_pcs x' r) = true) /\
+  (forall q, q <> r -> i_iodone x' q = i_iodone x q) /\
+  (i_pcs x r <> PIo -> i_iodone x' r = i_iodone x r).
+Proof.
+  intros Hs. unfold istep in Hs. destruct (r <? i_W x)%nat eqn:E; cbn [negb] in Hs; [|discriminate]. clear E.
+  destruct (i_pcs x r) eqn:Hpc; istep_cases Hs.
+  all: cbn [i_pcs i_iodone set_pc set_iodone set_meta]; rewrite ?Nat.eqb_refl.
+  all: repeat split; try discriminate; try congruence; try reflexivity.
+  all: try (intros q Hq; destruct (Nat.eqb_spec q r); [contradiction|reflexivity]).
+  all: try (destruct (_ <? _)%nat; discriminate).
+Qed.
+
+Lemma leader_key_err_bad st x : leader_ok st x -> KK st x 0 = Some VErr -> bad_pc (i_pcs x 0%nat) = true.
+Proof.
+  unfold leader_ok. intros HL HK. rewrite HK in HL.
+  destruct (i_pcs x 0%nat); try reflexivity; try (decompose [and] HL; congruence); tauto.
+Qed.
+
+Lemma istep_inv_new st x r st' x' o : Inv st x -> istep st x r = Some (st', x', o) ->
+  (forall q, (q < i_W x')%nat ->
+     (i_pcs x' q = PAbsent <-> absent x' q = true) /\ (i_pcs x' q = PAbsent -> i_iodone x' q = false)) /\
+  (forall q, i_tmo x' q = true -> (q < i_W x')%nat /\ raised_pc (i_pcs x' q) = true) /\
+  (forall q, (1 <= q < i_W x')%nat -> bad_pc (i_pcs x' q) = true ->
+     i_tmo x' q = true \/ bad_pc (i_pcs x' 0%nat) = true \/ (i_iodone x' q = false /\ iofails x' q = true)).
+Proof.
+  intros [HL HP HIO HK HPC HA HT HC] Hs.
+  pose proof (istep_frame _ _ _ _ _ _ Hs) as (Fp & FW & FF & FM & Hr & _).
+  pose proof (istep_frame2 _ _ _ _ _ _ Hs) as (FA & FT).
+  destruct (istep_shape _ _ _ _ _ _ Hs) as (Soth & Snab & Snab' & Sbad & Srai & Sio & Sio').
+  rewrite FW, FT. split; [|split].
+  - intros q Hq. rewrite (absent_frame x x' q FA). destruct (HA q Hq) as [A1 A2].
+    destruct (Nat.eq_dec q r) as [->|Hqr].
+    + split; [split; [intros H; contradiction|intros H; apply A1 in H; contradiction]|intros H; contradiction].
+    + rewrite (Soth q Hqr), (Sio q Hqr). split; assumption.
+  - intros q Hq. destruct (HT q Hq) as [T1 T2]. split; [exact T1|].
+    destruct (Nat.eq_dec q r) as [->|Hqr]; [apply Srai; exact T2|rewrite (Soth q Hqr); exact T2].
+  - intros q Hq Hb. rewrite (iofails_frame x x' q FF).
+    assert (B0 : bad_pc (i_pcs x 0%nat) = true -> bad_pc (i_pcs x' 0%nat) = true).
+    { destruct (Nat.eq_dec 0 r) as [<-|H0r]; [exact Sbad|rewrite (Soth 0%nat H0r); auto]. }
+    destruct (Nat.eq_dec q r) as [->|Hqr].
+    2:{ rewrite (Soth q Hqr) in Hb. rewrite (Sio q Hqr).
+        destruct (HC q Hq Hb) as [H|[H|H]]; auto. }
+    (* the peer r itself *)
+    destruct (bad_pc (i_pcs x r)) eqn:Hbo.
+    { (* it was already in the error path *)
+      assert (Hn : i_pcs x r <> PIo) by (intros E; rewrite E in Hbo; discriminate).
+      rewrite (Sio' Hn). destruct (HC r Hq Hbo) as [H|[H|H]]; auto. }
+    (* it enters the error path with this step *)
+    assert (HPr := HP r Hq). unfold peer_ok in HPr.
+    assert (Hr0 : Nat.eqb r 0 = false) by (apply Nat.eqb_neq; lia).
+    unfold istep in Hs. destruct (r <? i_W x)%nat eqn:E; cbn [negb] in Hs; [|discriminate]. clear E.
+    rewrite Hr0 in Hs.
+    destruct (i_pcs x r) eqn:Hpc; cbn [peer_ok_v bad_pc] in *; try contradiction; try discriminate.
+    + (* PIo *) destruct (iofails x r) eqn:Hio.
+      * inversion Hs; subst. right; right. cbn [i_iodone set_pc]. split; [tauto|reflexivity].
+      * inversion Hs; subst. cbn [i_pcs set_pc set_iodone] in Hb. rewrite Nat.eqb_refl in Hb. discriminate.
+    + (* PArrive *) inversion Hs; subst. cbn [i_pcs set_pc] in Hb. rewrite Nat.eqb_refl in Hb. discriminate.
+    + (* PDepart *) destruct (st_has st (kz x 0)); [|discriminate]. inversion Hs; subst.
+      cbn [i_pcs set_pc] in Hb. rewrite Nat.eqb_refl in Hb. discriminate.
+    + (* PDepartGet *) destruct (st_get st (kz x 0)) as [[|]|] eqn:Hg; [| |discriminate].
+      * inversion Hs; subst. cbn [i_pcs set_pc] in Hb. rewrite Nat.eqb_refl in Hb. discriminate.
+      * inversion Hs; subst. right; left. cbn [i_pcs set_pc]. rewrite (eqb_0S_gen r) by lia.
+        apply (leader_key_err_bad _ x HL). exact Hg.
+Qed.
+
+(* ------------------------------------------------------------------ the timeout step preserves the invariant *)
+Lemma itimeout_inv st x r st' x' o : Inv st x -> itimeout st x r = Some (st', x', o) -> Inv st' x'.
+Proof.
+  intros [HL HP HIO HK HPC HA HT HC] Hs.
+  destruct (itimeout_spec _ _ _ _ _ _ Hs) as (Hr & -> & -> & Hsite).
+  assert (HKx : forall q, KK st (set_tmo (set_pc x r PHandler) r) q = KK st x q) by (intros q; apply KK_prefix; reflexivity).
+  assert (HF : cause x -> cause (set_tmo (set_pc x r PHandler) r)).
+  { apply cause_frame; try reflexivity. intros q Hq. cbn [i_tmo set_tmo set_pc]. destruct (Nat.eqb q r); auto. }
+  assert (Hnew : cause (set_tmo (set_pc x r PHandler) r)).
+  { right. exists r. split; [exact Hr|]. cbn [i_tmo set_tmo]. rewrite Nat.eqb_refl. reflexivity. }
+  split.
+  - (* leader *)
+    unfold leader_ok in *. rewrite !HKx. cbn [i_pcs i_meta i_metafail i_W i_iodone set_tmo set_pc].
+    destruct Hsite as [(-> & Hpc & _)|(Hr0 & Hpc & _)].
+    + rewrite Hpc in HL. cbn [Nat.eqb]. destruct HL as (A & B & _). split; [congruence|exact B].
+    + rewrite (proj2 (Nat.eqb_neq 0 r) (fun E => Hr0 (eq_sym E))).
+      destruct (i_pcs x 0%nat); try exact HL.
+  - (* peers *)
+    intros q Hq. cbn [i_W set_tmo set_pc] in Hq. specialize (HP q Hq). unfold peer_ok in *. rewrite !HKx.
+    cbn [i_pcs i_iodone set_tmo set_pc]. destruct (Nat.eqb_spec q r) as [->|Hqr]; [|exact HP].
+    destruct Hsite as [(-> & _)|(_ & Hpc & _)]; [lia|]. rewrite Hpc in HP. cbn [peer_ok_v] in *. right. exact HP.
+  - exact HIO.
+  - intros q. rewrite HKx. intros Hq. apply HF. exact (HK q Hq).
+  - intros q Hq. cbn [i_pcs i_W set_tmo set_pc] in *. destruct (Nat.eqb q r); [intros _; exact Hnew|].
+    intros Hb. apply HF. exact (HPC q Hq Hb).
+  - intros q Hq. cbn [i_pcs i_W i_iodone set_tmo set_pc] in *.
+    change (absent (set_tmo (set_pc x r PHandler) r) q) with (absent x q).
+    destruct (HA q Hq) as [A1 A2]. destruct (Nat.eqb_spec q r) as [->|Hqr]; [|split; assumption].
+    split; [split; [discriminate|]|discriminate].
+    intros Hab. apply A1 in Hab. destruct Hsite as [(_ & Hpc & _)|(_ & Hpc & _)]; congruence.
+  - intros q. cbn [i_pcs i_W i_tmo set_tmo set_pc]. destruct (Nat.eqb_spec q r) as [->|Hqr].
+    + intros _. split; [exact Hr|reflexivity].
+    + exact (HT q).
+  - intros q Hq. cbn [i_pcs i_W i_tmo i_iodone set_tmo set_pc] in *.
+    change (iofails (set_tmo (set_pc x r PHandler) r) q) with (iofails x q).
+    destruct (Nat.eqb_spec q r) as [->|Hqr]; [intros _; left; reflexivity|].
+    intros Hb. destruct (HC q Hq Hb) as [H|[H|H]]; auto.
+    right; left. destruct (Nat.eqb 0 r); [reflexivity|exact H].
+Qed.
+
 Lemma istep_inv st x r st' x' o : Inv st x -> istep st x r = Some (st', x', o) -> Inv st' x'.
 Proof.
   intros HI Hs.
   pose proof (istep_frame _ _ _ _ _ _ Hs) as (Fp & FW & FF & FM & Hr & _).
   destruct (istep_inv_misc _ _ _ _ _ _ HI Hs) as (A & B & C).
+  destruct (istep_inv_new _ _ _ _ _ _ HI Hs) as (D & E & F).
   split; auto.
   - destruct r; [eapply leader_step_leader|eapply peer_step_leader]; eauto.
   - intros q Hq. rewrite FW in Hq.
     destruct r; [eapply leader_step_peer|eapply peer_step_peer]; eauto.
 Qed.
 
+Lemma iact_inv k st x r st' x' o : Inv st x -> iact k st x r = Some (st', x', o) -> Inv st' x'.
+Proof. destruct k; [apply istep_inv|apply itimeout_inv]. Qed.
+
 (* ------------------------------------------------------------------ what the invariant says in one state *)
 Lemma inv_commit st x : Inv st x -> i_meta x = true ->
   forall r, (r < i_W x)%nat -> i_iodone x r = true /\ iofails x r = false.
 Proof.
-  intros [HL _ HIO _ _] Hm.
+  intros HI Hm. pose proof (inv_leader _ _ HI) as HL. pose proof (inv_io _ _ HI) as HIO.
   assert (H : forall j, (j < i_W x)%nat -> i_iodone x j = true).
   { unfold leader_ok in HL. destruct (i_pcs x 0%nat); try (decompose [and] HL; congruence); tauto. }
   intros r Hr. split; [|apply HIO]; apply H; exact Hr.
 Qed.
 
+Lemma inv_meta_leader_pc st x : Inv st x -> i_meta x = true -> i_pcs x 0%nat = PDepart \/ i_pcs x 0%nat = PDone.
+Proof.
+  intros HI Hm. pose proof (inv_leader _ _ HI) as HL. unfold leader_ok in HL.
+  destruct (i_pcs x 0%nat); try (decompose [and] HL; congruence); tauto.
+Qed.
+
 Lemma inv_leader_key_ok st x : Inv st x -> KK st x 0 = Some VOk -> i_pcs x 0%nat = PDone /\ i_meta x = true.
 Proof.
-  intros [HL _ _ _ _] HK. unfold leader_ok in HL. rewrite HK in HL.
+  intros HI HK. pose proof (inv_leader _ _ HI) as HL. unfold leader_ok in HL. rewrite HK in HL.
   destruct (i_pcs x 0%nat); try (decompose [and] HL; congruence); try tauto.
 Qed.
 
 Lemma inv_done_meta st x r : Inv st x -> (r < i_W x)%nat -> i_pcs x r = PDone -> i_meta x = true.
 Proof.
   intros HI Hr Hpc. destruct r as [|n].
-  - destruct HI as [HL _ _ _ _]. unfold leader_ok in HL. rewrite Hpc in HL. tauto.
+  - pose proof (inv_leader _ _ HI) as HL. unfold leader_ok in HL. rewrite Hpc in HL. tauto.
   - pose proof (inv_peer _ _ HI (S n) ltac:(lia)) as HP. unfold peer_ok in HP. rewrite Hpc in HP.
     cbn [peer_ok_v] in HP. destruct HP as (_ & _ & HK). exact (proj2 (inv_leader_key_ok _ _ HI HK)).
 Qed.
@@ -341,24 +554,78 @@ Lemma inv_meta_no_fault st x : Inv st x -> i_meta x = true -> ~ has_fault x.
 Proof.
   intros HI Hm [[f [Hf1 Hf2]]|Hmf].
   - destruct (inv_commit _ _ HI Hm f Hf1) as [_ H]. congruence.
-  - destruct HI as [HL _ _ _ _]. unfold leader_ok in HL.
+  - pose proof (inv_leader _ _ HI) as HL. unfold leader_ok in HL.
     destruct (i_pcs x 0%nat); try (decompose [and] HL; congruence); tauto.
 Qed.
 
-Lemma inv_fault_no_done st x : Inv st x -> has_fault x -> forall r, (r < i_W x)%nat -> i_pcs x r <> PDone.
+Lemma inv_meta_no_absent st x : Inv st x -> i_meta x = true -> ~ has_absent x.
 Proof.
-  intros HI HF r Hr Hpc. exact (inv_meta_no_fault _ _ HI (inv_done_meta _ _ _ HI Hr Hpc) HF).
+  intros HI Hm [a [Ha1 Ha2]]. destruct (inv_absent _ _ HI a Ha1) as [A1 A2].
+  apply A1 in Ha2. apply A2 in Ha2. destruct (inv_commit _ _ HI Hm a Ha1) as [H _]. congruence.
 Qed.
 
-Lemma inv_fault_no_meta st x : Inv st x -> has_fault x -> i_meta x = false.
+Lemma inv_meta_leader_no_timeout st x : Inv st x -> i_meta x = true -> i_tmo x 0%nat = false.
 Proof.
-  intros HI HF. destruct (i_meta x) eqn:E; [|reflexivity]. destruct (inv_meta_no_fault _ _ HI E HF).
+  intros HI Hm. destruct (i_tmo x 0%nat) eqn:E; [|reflexivity].
+  destruct (inv_tmo _ _ HI 0%nat E) as [_ H]. destruct (inv_meta_leader_pc _ _ HI Hm) as [P|P]; rewrite P in H; discriminate.
 Qed.
 
-Lemma inv_nofault_no_raise st x : Inv st x -> ~ has_fault x -> forall r, (r < i_W x)%nat -> bad_pc (i_pcs x r) = false.
+Lemma inv_meta_no_global_cause st x : Inv st x -> i_meta x = true -> ~ global_cause x.
+Proof.
+  intros HI Hm [H|[H|H]].
+  - exact (inv_meta_no_fault _ _ HI Hm H).
+  - exact (inv_meta_no_absent _ _ HI Hm H).
+  - rewrite (inv_meta_leader_no_timeout _ _ HI Hm) in H. discriminate.
+Qed.
+
+Lemma inv_global_no_meta st x : Inv st x -> global_cause x -> i_meta x = false.
+Proof.
+  intros HI HG. destruct (i_meta x) eqn:E; [|reflexivity]. destruct (inv_meta_no_global_cause _ _ HI E HG).
+Qed.
+
+Lemma inv_global_no_done st x : Inv st x -> global_cause x -> forall r, (r < i_W x)%nat -> i_pcs x r <> PDone.
+Proof.
+  intros HI HG r Hr Hpc. exact (inv_meta_no_global_cause _ _ HI (inv_done_meta _ _ _ HI Hr Hpc) HG).
+Qed.
+
+Lemma inv_nocause_no_raise st x : Inv st x -> ~ cause x -> forall r, (r < i_W x)%nat -> bad_pc (i_pcs x r) = false.
 Proof.
   intros HI HF r Hr. destruct (bad_pc (i_pcs x r)) eqn:E; [|reflexivity].
   destruct (HF (inv_err_pc _ _ HI r Hr E)).
+Qed.
+
+(* after the commit the only way to raise is a peer's own timeout in depart *)
+Lemma inv_after_commit st x : Inv st x -> i_meta x = true ->
+  forall r, (r < i_W x)%nat -> bad_pc (i_pcs x r) = true -> r <> 0%nat /\ i_tmo x r = true.
+Proof.
+  intros HI Hm r Hr Hb.
+  assert (H0 : bad_pc (i_pcs x 0%nat) = false).
+  { destruct (inv_meta_leader_pc _ _ HI Hm) as [P|P]; rewrite P; reflexivity. }
+  destruct r as [|n]; [congruence|]. split; [discriminate|].
+  destruct (inv_peer_cause _ _ HI (S n) ltac:(lia) Hb) as [H|[H|[H _]]]; [exact H|congruence|].
+  destruct (inv_commit _ _ HI Hm (S n) Hr) as [H' _]. congruence.
+Qed.
+
+(* a rank that timed out never succeeds; once it has run its handler its error key is set *)
+Lemma inv_timed_out_rank st x r : Inv st x -> i_tmo x r = true ->
+  (r < i_W x)%nat /\ (i_pcs x r = PHandler \/ i_pcs x r = PRaised) /\ (i_pcs x r = PRaised -> KK st x r = Some VErr).
+Proof.
+  intros HI Ht. destruct (inv_tmo _ _ HI r Ht) as [Hr Hp]. split; [exact Hr|]. split.
+  - destruct (i_pcs x r); try discriminate; auto.
+  - intros Hpc. destruct r as [|n].
+    + pose proof (inv_leader _ _ HI) as HL. unfold leader_ok in HL. rewrite Hpc in HL. tauto.
+    + pose proof (inv_peer _ _ HI (S n) ltac:(lia)) as HP. unfold peer_ok in HP. rewrite Hpc in HP. exact HP.
+Qed.
+
+(* the LEADER absent: nobody ever writes the leader's key, so no error text reaches anybody: every rank that
+   raises does so through its own timeout or because its own I/O failed *)
+Lemma inv_absent_leader st x : Inv st x -> (0 < i_W x)%nat -> absent x 0 = true ->
+  forall r, (r < i_W x)%nat -> bad_pc (i_pcs x r) = true -> i_tmo x r = true \/ iofails x r = true.
+Proof.
+  intros HI HW Ha r Hr Hb. destruct (inv_absent _ _ HI 0%nat HW) as [A1 _]. apply A1 in Ha.
+  destruct r as [|n]; [rewrite Ha in Hb; discriminate|].
+  destruct (inv_peer_cause _ _ HI (S n) ltac:(lia) Hb) as [H|[H|[_ H]]]; auto.
+  rewrite Ha in H. discriminate.
 Qed.
 
 (* ------------------------------------------------------------------ deadlock freedom of one instance *)
@@ -373,12 +640,7 @@ Proof.
   exists j. split; [lia|]. unfold st_has in Hj2. unfold KK. destruct (st_get st (kz x j)); [discriminate|reflexivity].
 Qed.
 
-Lemma inv_deadlock_free st x r : Inv st x -> (r < i_W x)%nat -> terminated (i_pcs x r) = false ->
-  exists r', (r' < i_W x)%nat /\ istep st x r' <> None.
-Proof.
-  intros HI Hr Ht.
-  assert (HW : (0 < i_W x)%nat) by lia.
-  assert (Hstep : forall q, (q < i_W x)%nat -> istep st x q =
+Lemma istep_unfold st x q : (q < i_W x)%nat -> istep st x q =
             (let p := i_prefix x in
              match i_pcs x q with
              | PIo => if iofails x q then Some (st, set_pc x q PHandler, OIo false)
@@ -402,16 +664,62 @@ Proof.
                  | Some VOk => Some (st, set_pc x q PDone, OGet p 0%nat VOk)
                  | Some VErr => Some (st, set_pc x q PHandler, OGet p 0%nat VErr) end
              | PHandler => Some (st_set st (kz x q) VErr, set_pc x q PRaised, OSet p q VErr)
-             | PDone | PRaised => None
-             end)).
-  { intros q Hq. unfold istep. apply Nat.ltb_lt in Hq. rewrite Hq. reflexivity. }
-  (* a peer that is not terminated and not waiting can step; so can one that waits for a present leader key *)
-  assert (Hpeer : forall n, (S n < i_W x)%nat -> terminated (i_pcs x (S n)) = false ->
+             | PDone | PRaised | PAbsent => None
+             end).
+Proof. intros Hq. unfold istep. apply Nat.ltb_lt in Hq. rewrite Hq. reflexivity. Qed.
+
+Lemma itimeout_unfold st x q : (q < i_W x)%nat -> itimeout st x q =
+  match i_pcs x q with
+  | PArrive => if Nat.eqb q 0 then Some (st, set_tmo (set_pc x q PHandler) q, OTimeout (i_prefix x) (peers (i_W x))) else None
+  | PDepart => if Nat.eqb q 0 then None else Some (st, set_tmo (set_pc x q PHandler) q, OTimeout (i_prefix x) [0%nat])
+  | _ => None
+  end.
+Proof. intros Hq. unfold itimeout. apply Nat.ltb_lt in Hq. rewrite Hq. reflexivity. Qed.
+
+(* with timeouts NO live rank is ever stuck: every rank whose background thread exists and has not finished can
+   itself take a normal step or, when it stands at a store.wait, its timeout step - whatever the other ranks do,
+   whether or not they exist *)
+Lemma inv_rank_never_stuck st x r : Inv st x -> (r < i_W x)%nat -> live (i_pcs x r) = true ->
+  istep st x r <> None \/ itimeout st x r <> None.
+Proof.
+  intros HI Hr Hl. rewrite (istep_unfold st x r Hr), (itimeout_unfold st x r Hr). cbv zeta.
+  destruct r as [|n].
+  - pose proof (inv_leader _ _ HI) as HL. unfold leader_ok in HL. cbn [Nat.eqb].
+    destruct (i_pcs x 0%nat) eqn:Hpc; cbn [live] in Hl; try discriminate; try contradiction.
+    + left. destruct (iofails x 0); discriminate.
+    + right. discriminate.
+    + left. destruct HL as (_ & _ & Hk & _ & HKs). specialize (HKs k Hk). unfold KK in HKs.
+      destruct (st_get st (kz x k)) as [[|]|]; congruence.
+    + left. discriminate.
+    + left. destruct (i_metafail x); discriminate.
+    + left. discriminate.
+    + left. discriminate.
+  - pose proof (inv_peer _ _ HI (S n) ltac:(lia)) as HP. unfold peer_ok in HP. rewrite eqb_S0.
+    destruct (i_pcs x (S n)) eqn:Hpc; cbn [live peer_ok_v] in *; try discriminate; try contradiction.
+    + left. destruct (iofails x (S n)); discriminate.
+    + left. discriminate.
+    + right. discriminate.
+    + left. destruct HP as (_ & _ & HK0). unfold KK in HK0. destruct (st_get st (kz x 0)) as [[|]|]; congruence.
+    + left. discriminate.
+Qed.
+
+(* without timeouts: if nobody is absent, then while some rank is live some rank can take a NORMAL step *)
+Lemma inv_deadlock_free st x r : Inv st x -> (forall q, (q < i_W x)%nat -> absent x q = false) ->
+  (r < i_W x)%nat -> live (i_pcs x r) = true ->
+  exists r', (r' < i_W x)%nat /\ istep st x r' <> None.
+Proof.
+  intros HI HNA Hr Ht.
+  assert (HW : (0 < i_W x)%nat) by lia.
+  assert (Hna : forall q, (q < i_W x)%nat -> i_pcs x q <> PAbsent).
+  { intros q Hq E. destruct (inv_absent _ _ HI q Hq) as [[A1 _] _]. apply A1 in E. rewrite (HNA q Hq) in E. discriminate. }
+  pose proof (istep_unfold st x) as Hstep.
+  (* a peer that is live and not waiting can step; so can one that waits for a present leader key *)
+  assert (Hpeer : forall n, (S n < i_W x)%nat -> live (i_pcs x (S n)) = true ->
                   KK st x 0 <> None \/ (i_pcs x (S n) <> PDepart /\ i_pcs x (S n) <> PDepartGet) ->
                   istep st x (S n) <> None).
   { intros n Hn Htn Hc. rewrite (Hstep _ Hn). cbv zeta. rewrite eqb_S0.
     pose proof (inv_peer _ _ HI (S n) ltac:(lia)) as HP. unfold peer_ok in HP.
-    destruct (i_pcs x (S n)) eqn:Hpc; cbn [peer_ok_v terminated] in *; try contradiction; try discriminate.
+    destruct (i_pcs x (S n)) eqn:Hpc; cbn [peer_ok_v live] in *; try contradiction; try discriminate.
     - destruct (iofails x (S n)); discriminate.
     - destruct Hc as [Hc|[Hc _]]; [|congruence]. apply st_has_true in Hc. rewrite Hc. discriminate.
     - destruct HP as (_ & _ & HK0). unfold KK in HK0. destruct (st_get st (kz x 0)) as [[|]|]; congruence. }
@@ -422,9 +730,10 @@ Proof.
     destruct (all_present st x (peers (i_W x))) eqn:Hall.
     + exists 0%nat. split; [assumption|]. rewrite (Hstep _ HW), Hpc0. cbv zeta. rewrite Nat.eqb_refl, ?Hall. discriminate.
     + destruct (all_present_false _ _ Hall) as [j [Hj HKj]]. destruct j as [|n]; [lia|].
+      pose proof (Hna (S n) ltac:(lia)) as Hnaj.
       exists (S n). split; [lia|]. apply Hpeer; [lia| |].
       * pose proof (inv_peer _ _ HI (S n) Hj) as HP. unfold peer_ok in HP. rewrite HKj in HP.
-        destruct (i_pcs x (S n)); cbn in *; try reflexivity; intuition congruence.
+        destruct (i_pcs x (S n)); cbn in *; try reflexivity; try congruence; intuition congruence.
       * right. pose proof (inv_peer _ _ HI (S n) Hj) as HP. unfold peer_ok in HP. rewrite HKj in HP.
         destruct (i_pcs x (S n)); cbn in *; intuition congruence.
   - exists 0%nat. split; [assumption|]. rewrite (Hstep _ HW), Hpc0. cbv zeta.
@@ -440,6 +749,7 @@ Proof.
     exists (S n). split; [assumption|]. apply Hpeer; auto. left. destruct HL as [HK _]. congruence.
   - destruct r as [|n]; [rewrite Hpc0 in Ht; discriminate|].
     exists (S n). split; [assumption|]. apply Hpeer; auto. left. destruct HL as [HK _]. congruence.
+  - destruct (Hna 0%nat HW Hpc0).
 Qed.
 
 (* ------------------------------------------------------------------ lists of instances *)
@@ -478,12 +788,13 @@ Definition GInv (s : gstate) : Prop :=
 
 Lemma gstep_cases s c :
   (fst (gstep s c) = s /\ snd (gstep s c) = None /\
-   (forall x, nth_error (g_insts s) (fst c) = Some x -> istep (g_store s) x (snd c) = None)) \/
-  (exists x st' x' o, nth_error (g_insts s) (fst c) = Some x /\ istep (g_store s) x (snd c) = Some (st', x', o) /\
-     gstep s c = ({| g_store := st'; g_insts := upd (g_insts s) (fst c) x' |}, Some o)).
+   (forall x, nth_error (g_insts s) (c_inst c) = Some x -> iact (c_kind c) (g_store s) x (c_rank c) = None)) \/
+  (exists x st' x' o, nth_error (g_insts s) (c_inst c) = Some x /\
+     iact (c_kind c) (g_store s) x (c_rank c) = Some (st', x', o) /\
+     gstep s c = ({| g_store := st'; g_insts := upd (g_insts s) (c_inst c) x' |}, Some o)).
 Proof.
-  unfold gstep. destruct (nth_error (g_insts s) (fst c)) as [x|] eqn:Hn.
-  - destruct (istep (g_store s) x (snd c)) as [[[st' x'] o]|] eqn:Hs.
+  unfold gstep. destruct (nth_error (g_insts s) (c_inst c)) as [x|] eqn:Hn.
+  - destruct (iact (c_kind c) (g_store s) x (c_rank c)) as [[[st' x'] o]|] eqn:Hs.
     + right. exists x, st', x', o. auto.
     + left. repeat split; auto. intros y Hy. inversion Hy. subst. assumption.
   - left. repeat split; auto. discriminate.
@@ -494,11 +805,11 @@ Proof.
   intros [ND HI]. destruct (gstep_cases s c) as [(E & _ & _)|(x & st' & x' & o & Hn & Hs & E)].
   - rewrite E. split; assumption.
   - rewrite E. unfold GInv. cbn [fst g_store g_insts].
-    pose proof (istep_frame _ _ _ _ _ _ Hs) as (Fp & FW & FF & FM & Hr & Hother).
+    pose proof (iact_frame _ _ _ _ _ _ _ Hs) as (Fp & FW & FF & FM & Hr & Hother).
     split.
     + rewrite (map_upd_same i_prefix _ _ x x' Hn Fp). exact ND.
-    + intros i y Hy. rewrite nth_error_upd, Hn in Hy. destruct (Nat.eqb_spec (fst c) i) as [Ei|Ei].
-      * inversion Hy. subst y. exact (istep_inv _ _ _ _ _ _ (HI _ _ Hn) Hs).
+    + intros i y Hy. rewrite nth_error_upd, Hn in Hy. destruct (Nat.eqb_spec (c_inst c) i) as [Ei|Ei].
+      * inversion Hy. subst y. exact (iact_inv _ _ _ _ _ _ _ (HI _ _ Hn) Hs).
       * apply (Inv_ext (g_store s)); [|exact (HI _ _ Hy)].
         intros r. apply Hother. intros Hp. apply Ei. symmetry.
         exact (NoDup_map_nth i_prefix _ _ _ _ _ ND Hy Hn Hp).
@@ -527,7 +838,8 @@ Proof. intros HF HD Hx. exact (proj2 (grun_inv _ sch (ginit_inv _ _ HF HD)) i x 
 
 (* static fields of an instance never change: the i-th instance is always the i-th snapshot of the history *)
 Definition same_static (x y : inst) : Prop :=
-  i_prefix y = i_prefix x /\ i_W y = i_W x /\ i_iofail y = i_iofail x /\ i_metafail y = i_metafail x.
+  i_prefix y = i_prefix x /\ i_W y = i_W x /\ i_iofail y = i_iofail x /\ i_metafail y = i_metafail x /\
+  i_absent y = i_absent x.
 
 Lemma gstep_static s c i x : nth_error (g_insts s) i = Some x ->
   exists y, nth_error (g_insts (fst (gstep s c))) i = Some y /\ same_static x y.
@@ -535,8 +847,9 @@ Proof.
   intros Hx. destruct (gstep_cases s c) as [(E & _ & _)|(x0 & st' & x' & o & Hn & Hs & E)].
   - rewrite E. exists x. repeat split; auto.
   - rewrite E. cbn [fst g_insts]. rewrite nth_error_upd, Hn.
-    pose proof (istep_frame _ _ _ _ _ _ Hs) as (Fp & FW & FF & FM & _ & _).
-    destruct (Nat.eqb_spec (fst c) i) as [Ei|Ei].
+    pose proof (iact_frame _ _ _ _ _ _ _ Hs) as (Fp & FW & FF & FM & _ & _).
+    pose proof (iact_absent _ _ _ _ _ _ _ Hs) as FA.
+    destruct (Nat.eqb_spec (c_inst c) i) as [Ei|Ei].
     + subst i. rewrite Hn in Hx. inversion Hx. subst x0. exists x'. repeat split; auto.
     + exists x. repeat split; auto.
 Qed.
@@ -560,35 +873,53 @@ Qed.
 
 Lemma reach_static st0 h sch i sp : nth_error h i = Some sp ->
   exists x, nth_error (g_insts (grun (ginit st0 h) sch)) i = Some x /\
-            i_prefix x = sp_prefix sp /\ i_W x = sp_W sp /\ i_iofail x = sp_iofail sp /\ i_metafail x = sp_metafail sp.
+            i_prefix x = sp_prefix sp /\ i_W x = sp_W sp /\ i_iofail x = sp_iofail sp /\ i_metafail x = sp_metafail sp /\
+            i_absent x = sp_absent sp.
 Proof.
   intros Hsp. assert (H0 : nth_error (g_insts (ginit st0 h)) i = Some (mk_inst sp)).
   { cbn. rewrite nth_error_map, Hsp. reflexivity. }
-  destruct (grun_static _ sch _ _ H0) as (y & Hy & S1 & S2 & S3 & S4). exists y. cbn in *. auto.
+  destruct (grun_static _ sch _ _ H0) as (y & Hy & S1 & S2 & S3 & S4 & S5). exists y. cbn in *. auto 6.
 Qed.
 
 (* ------------------------------------------------------------------ independence of instances *)
-(* a step of instance j changes no key of another prefix and no other instance *)
-Lemma gstep_independent s j r i x : NoDup (map i_prefix (g_insts s)) ->
-  nth_error (g_insts s) i = Some x -> i <> j ->
-  nth_error (g_insts (fst (gstep s (j, r)))) i = Some x /\
-  forall q, st_get (g_store (fst (gstep s (j, r)))) (i_prefix x, q) = st_get (g_store s) (i_prefix x, q).
+Lemma iact_other_keys k st x r st' x' o : iact k st x r = Some (st', x', o) ->
+  forall p q, p <> i_prefix x -> st_get st' (p, q) = st_get st (p, q).
 Proof.
-  intros ND Hx Hij. destruct (gstep_cases s (j, r)) as [(E & _ & _)|(x0 & st' & x' & o & Hn & Hs & E)].
+  destruct k; cbn [iact]; intros Hs p q Hp.
+  - revert Hs. unfold istep. destruct (negb (r <? i_W x)%nat); [discriminate|].
+    destruct (i_pcs x r); intros Hs; istep_cases Hs; try reflexivity.
+    all: rewrite st_get_set; match goal with |- (if ?c then _ else _) = _ => destruct c eqn:Ek end; try reflexivity.
+    all: apply key_eqb_true in Ek; unfold kz in Ek; inversion Ek; congruence.
+  - destruct (itimeout_spec _ _ _ _ _ _ Hs) as (_ & -> & _). reflexivity.
+Qed.
+
+(* a step (normal or timeout) of instance j changes no key of another prefix and no other instance *)
+Lemma gstep_independent s c i x : NoDup (map i_prefix (g_insts s)) ->
+  nth_error (g_insts s) i = Some x -> i <> c_inst c ->
+  nth_error (g_insts (fst (gstep s c))) i = Some x /\
+  forall q, st_get (g_store (fst (gstep s c))) (i_prefix x, q) = st_get (g_store s) (i_prefix x, q).
+Proof.
+  intros ND Hx Hij. destruct (gstep_cases s c) as [(E & _ & _)|(x0 & st' & x' & o & Hn & Hs & E)].
   - rewrite E. auto.
   - rewrite E. cbn [fst snd g_insts g_store] in *. split.
-    + rewrite nth_error_upd. destruct (Nat.eqb_spec j i); [congruence|assumption].
+    + rewrite nth_error_upd. destruct (Nat.eqb_spec (c_inst c) i); [congruence|assumption].
     + intros q. assert (Hp : i_prefix x <> i_prefix x0).
       { intros Hp. apply Hij. exact (NoDup_map_nth i_prefix _ _ _ _ _ ND Hx Hn Hp). }
-      revert Hs. clear -Hp. unfold istep. destruct (negb (r <? i_W x0)%nat); [discriminate|].
-      destruct (i_pcs x0 r); intros Hs; istep_cases Hs; try reflexivity.
-      all: rewrite st_get_set; match goal with |- (if ?c then _ else _) = _ => destruct c eqn:Ek end; try reflexivity.
-      all: apply key_eqb_true in Ek; unfold kz in Ek; inversion Ek; congruence.
+      exact (iact_other_keys _ _ _ _ _ _ _ Hs _ q Hp).
 Qed.
 
 (* ------------------------------------------------------------------ property-level statements *)
 Lemma no_fault_not_has_fault x : no_fault x -> ~ has_fault x.
 Proof. intros [H1 H2] [[f [Hf1 Hf2]]|H]; [rewrite (H1 f Hf1) in Hf2|]; congruence. Qed.
+
+Lemma no_absent_not_has_absent x : no_absent x -> ~ has_absent x.
+Proof. intros H [a [Ha1 Ha2]]. rewrite (H a Ha1) in Ha2. discriminate. Qed.
+
+Lemma no_timeout_not_timed_out x : no_timeout x -> ~ timed_out x.
+Proof. intros H [a [Ha1 Ha2]]. rewrite (H a Ha1) in Ha2. discriminate. Qed.
+
+Lemma has_fault_global x : has_fault x -> global_cause x.
+Proof. intros H. left. exact H. Qed.
 
 Lemma commit_after_all_arrive st0 h sch i x : fresh st0 h -> distinct_prefixes h ->
   nth_error (g_insts (grun (ginit st0 h) sch)) i = Some x ->
@@ -600,75 +931,164 @@ Lemma depart_after_commit st0 h sch i x : fresh st0 h -> distinct_prefixes h ->
   forall r, (r < i_W x)%nat -> i_pcs x r = PDone -> i_meta x = true.
 Proof. intros HF HD Hx r. exact (inv_done_meta _ _ r (reach_inv _ _ _ _ _ HF HD Hx)). Qed.
 
+(* a fault of the plan, an absent rank or a timeout of the leader: nobody succeeds, nothing is committed *)
+Lemma error_reaches_everyone_gen st0 h sch i x : fresh st0 h -> distinct_prefixes h ->
+  nth_error (g_insts (grun (ginit st0 h) sch)) i = Some x ->
+  global_cause x ->
+  (forall r, (r < i_W x)%nat -> i_pcs x r <> PDone) /\
+  (forall r, (r < i_W x)%nat -> terminated (i_pcs x r) = true -> i_pcs x r = PRaised) /\
+  i_meta x = false.
+Proof.
+  intros HF HD Hx Hf. pose proof (reach_inv _ _ _ _ _ HF HD Hx) as HI.
+  pose proof (inv_global_no_done _ _ HI Hf) as ND. split; [exact ND|]. split.
+  - intros r Hr Ht. specialize (ND r Hr). destruct (i_pcs x r); try discriminate; congruence.
+  - exact (inv_global_no_meta _ _ HI Hf).
+Qed.
+
 Lemma error_reaches_everyone st0 h sch i x : fresh st0 h -> distinct_prefixes h ->
   nth_error (g_insts (grun (ginit st0 h) sch)) i = Some x ->
   has_fault x ->
   (forall r, (r < i_W x)%nat -> i_pcs x r <> PDone) /\
   (forall r, (r < i_W x)%nat -> terminated (i_pcs x r) = true -> i_pcs x r = PRaised) /\
   i_meta x = false.
-Proof.
-  intros HF HD Hx Hf. pose proof (reach_inv _ _ _ _ _ HF HD Hx) as HI.
-  pose proof (inv_fault_no_done _ _ HI Hf) as ND. split; [exact ND|]. split.
-  - intros r Hr Ht. specialize (ND r Hr). destruct (i_pcs x r); try discriminate; congruence.
-  - exact (inv_fault_no_meta _ _ HI Hf).
-Qed.
+Proof. intros HF HD Hx Hf. exact (error_reaches_everyone_gen _ _ _ _ _ HF HD Hx (has_fault_global _ Hf)). Qed.
 
-Lemma no_fault_no_raise st0 h sch i x : fresh st0 h -> distinct_prefixes h ->
+(* a rank raises only if the plan has a fault or some rank of the snapshot took a timeout step
+   (an absent rank alone makes nobody raise: its peers block until they time out) *)
+Lemma no_cause_no_raise st0 h sch i x : fresh st0 h -> distinct_prefixes h ->
   nth_error (g_insts (grun (ginit st0 h) sch)) i = Some x ->
-  no_fault x -> forall r, (r < i_W x)%nat -> i_pcs x r <> PRaised.
+  no_fault x -> no_timeout x -> forall r, (r < i_W x)%nat -> i_pcs x r <> PRaised.
 Proof.
-  intros HF HD Hx Hn r Hr Hp.
-  pose proof (inv_nofault_no_raise _ _ (reach_inv _ _ _ _ _ HF HD Hx) (no_fault_not_has_fault _ Hn) r Hr) as H.
+  intros HF HD Hx Hn Ht r Hr Hp.
+  assert (HC : ~ cause x).
+  { intros [H|H]; [exact (no_fault_not_has_fault _ Hn H)|exact (no_timeout_not_timed_out _ Ht H)]. }
+  pose proof (inv_nocause_no_raise _ _ (reach_inv _ _ _ _ _ HF HD Hx) HC r Hr) as H.
   rewrite Hp in H. discriminate.
 Qed.
 
+Lemma raise_has_cause st0 h sch i x : fresh st0 h -> distinct_prefixes h ->
+  nth_error (g_insts (grun (ginit st0 h) sch)) i = Some x ->
+  forall r, (r < i_W x)%nat -> i_pcs x r = PRaised -> has_fault x \/ timed_out x.
+Proof.
+  intros HF HD Hx r Hr Hp. apply (inv_err_pc _ _ (reach_inv _ _ _ _ _ HF HD Hx) r Hr). rewrite Hp. reflexivity.
+Qed.
+
+(* after the commit: the leader never raises, and a peer raises only through its own timeout in depart *)
+Lemma after_commit_only_own_timeout st0 h sch i x : fresh st0 h -> distinct_prefixes h ->
+  nth_error (g_insts (grun (ginit st0 h) sch)) i = Some x ->
+  i_meta x = true ->
+  (i_pcs x 0%nat = PDepart \/ i_pcs x 0%nat = PDone) /\
+  forall r, (r < i_W x)%nat -> i_pcs x r = PRaised -> r <> 0%nat /\ i_tmo x r = true.
+Proof.
+  intros HF HD Hx Hm. pose proof (reach_inv _ _ _ _ _ HF HD Hx) as HI. split.
+  - exact (inv_meta_leader_pc _ _ HI Hm).
+  - intros r Hr Hp. apply (inv_after_commit _ _ HI Hm r Hr). rewrite Hp. reflexivity.
+Qed.
+
+Lemma enabled_iact s i r k x : nth_error (g_insts s) i = Some x ->
+  enabled s (i, r, k) = match iact k (g_store s) x r with Some _ => true | None => false end.
+Proof.
+  intros Hx. unfold enabled, gstep, c_inst, c_rank, c_kind. cbn [fst snd]. rewrite Hx.
+  destruct (iact k (g_store s) x r) as [[[a b] c]|]; reflexivity.
+Qed.
+
+(* with timeouts no live rank is ever stuck *)
+Lemma rank_never_stuck st0 h sch i x r : fresh st0 h -> distinct_prefixes h ->
+  nth_error (g_insts (grun (ginit st0 h) sch)) i = Some x ->
+  (r < i_W x)%nat -> live (i_pcs x r) = true ->
+  enabled (grun (ginit st0 h) sch) (i, r, KStep) = true \/ enabled (grun (ginit st0 h) sch) (i, r, KTimeout) = true.
+Proof.
+  intros HF HD Hx Hr Hl. rewrite !(enabled_iact _ _ _ _ _ Hx). cbn [iact].
+  destruct (inv_rank_never_stuck _ _ r (reach_inv _ _ _ _ _ HF HD Hx) Hr Hl) as [H|H]; [left|right].
+  - destruct (istep _ x r); [reflexivity|congruence].
+  - destruct (itimeout _ x r); [reflexivity|congruence].
+Qed.
+
+(* without timeouts, if every rank takes part *)
 Lemma deadlock_free st0 h sch i x r : fresh st0 h -> distinct_prefixes h ->
   nth_error (g_insts (grun (ginit st0 h) sch)) i = Some x ->
-  (r < i_W x)%nat -> terminated (i_pcs x r) = false ->
-  exists r', (r' < i_W x)%nat /\ enabled (grun (ginit st0 h) sch) (i, r') = true.
+  no_absent x ->
+  (r < i_W x)%nat -> live (i_pcs x r) = true ->
+  exists r', (r' < i_W x)%nat /\ enabled (grun (ginit st0 h) sch) (i, r', KStep) = true.
 Proof.
-  intros HF HD Hx Hr Ht.
-  destruct (inv_deadlock_free _ _ r (reach_inv _ _ _ _ _ HF HD Hx) Hr Ht) as (r' & Hr' & Hs).
-  exists r'. split; [assumption|]. unfold enabled, gstep. cbn [fst snd]. rewrite Hx.
+  intros HF HD Hx HNA Hr Ht.
+  destruct (inv_deadlock_free _ _ r (reach_inv _ _ _ _ _ HF HD Hx) HNA Hr Ht) as (r' & Hr' & Hs).
+  exists r'. split; [assumption|]. rewrite (enabled_iact _ _ _ _ _ Hx). cbn [iact].
   destruct (istep (g_store (grun (ginit st0 h) sch)) x r') as [[[a b] c]|]; [reflexivity|congruence].
 Qed.
 
-(* a complete schedule: one after which no rank of instance i can take a step *)
+Lemma not_live_cases p : live p = false -> p = PDone \/ p = PRaised \/ p = PAbsent.
+Proof. destruct p; cbn; intros H; try discriminate; auto. Qed.
+
+(* a complete schedule without (further) timeouts: one after which no rank of instance i can take a normal step *)
 Lemma complete_schedule_outcomes st0 h sch i x : fresh st0 h -> distinct_prefixes h ->
   nth_error (g_insts (grun (ginit st0 h) sch)) i = Some x ->
   quiescent_inst (grun (ginit st0 h) sch) i ->
-  (no_fault x -> (forall r, (r < i_W x)%nat -> i_pcs x r = PDone) /\ ((0 < i_W x)%nat -> i_meta x = true)) /\
-  (has_fault x -> (forall r, (r < i_W x)%nat -> i_pcs x r = PRaised) /\ i_meta x = false).
+  (no_absent x -> forall r, (r < i_W x)%nat -> terminated (i_pcs x r) = true) /\
+  (no_fault x -> no_absent x -> no_timeout x ->
+     (forall r, (r < i_W x)%nat -> i_pcs x r = PDone) /\ ((0 < i_W x)%nat -> i_meta x = true)) /\
+  (has_fault x \/ i_tmo x 0%nat = true -> no_absent x ->
+     (forall r, (r < i_W x)%nat -> i_pcs x r = PRaised) /\ i_meta x = false).
 Proof.
   intros HF HD Hx Hq.
-  assert (HT : forall r, (r < i_W x)%nat -> terminated (i_pcs x r) = true).
-  { intros r Hr. destruct (terminated (i_pcs x r)) eqn:Ht; [reflexivity|].
-    destruct (deadlock_free _ _ _ _ _ r HF HD Hx Hr Ht) as (r' & _ & He).
-    unfold enabled in He. rewrite (Hq r') in He. discriminate. }
-  split.
-  - intros Hn.
+  assert (HT : no_absent x -> forall r, (r < i_W x)%nat -> terminated (i_pcs x r) = true).
+  { intros HNA r Hr. destruct (live (i_pcs x r)) eqn:Ht.
+    - destruct (deadlock_free _ _ _ _ _ r HF HD Hx HNA Hr Ht) as (r' & _ & He).
+      unfold enabled in He. rewrite (Hq r') in He. discriminate.
+    - destruct (not_live_cases _ Ht) as [E|[E|E]]; try (rewrite E; reflexivity).
+      destruct (inv_absent _ _ (reach_inv _ _ _ _ _ HF HD Hx) r Hr) as [[A1 _] _]. apply A1 in E.
+      rewrite (HNA r Hr) in E. discriminate. }
+  split; [exact HT|]. split.
+  - intros Hn HNA Hnt.
     assert (HDn : forall r, (r < i_W x)%nat -> i_pcs x r = PDone).
-    { intros r Hr. pose proof (no_fault_no_raise _ _ _ _ _ HF HD Hx Hn r Hr) as H1. specialize (HT r Hr).
+    { intros r Hr. pose proof (no_cause_no_raise _ _ _ _ _ HF HD Hx Hn Hnt r Hr) as H1. specialize (HT HNA r Hr).
       destruct (i_pcs x r); try discriminate; congruence. }
     split; [exact HDn|]. intros HW. exact (depart_after_commit _ _ _ _ _ HF HD Hx 0%nat HW (HDn _ HW)).
-  - intros Hf. destruct (error_reaches_everyone _ _ _ _ _ HF HD Hx Hf) as (_ & H2 & H3).
+  - intros Hf HNA.
+    assert (HG : global_cause x) by (destruct Hf as [H|H]; [left; exact H|right; right; exact H]).
+    destruct (error_reaches_everyone_gen _ _ _ _ _ HF HD Hx HG) as (_ & H2 & H3).
     split; [|exact H3]. intros r Hr. apply H2; auto.
+Qed.
+
+(* a state in which no rank of instance i can take ANY step, normal or timeout: every background thread that exists
+   has finished - whatever the plan, absent ranks included *)
+Definition quiescent_all (s : gstate) (i : nat) : Prop :=
+  forall r k, snd (gstep s (i, r, k)) = None.
+
+Lemma all_quiescent_outcomes st0 h sch i x : fresh st0 h -> distinct_prefixes h ->
+  nth_error (g_insts (grun (ginit st0 h) sch)) i = Some x ->
+  quiescent_all (grun (ginit st0 h) sch) i ->
+  (forall r, (r < i_W x)%nat -> i_pcs x r = PDone \/ i_pcs x r = PRaised \/ i_pcs x r = PAbsent) /\
+  (global_cause x -> (forall r, (r < i_W x)%nat -> i_pcs x r = PRaised \/ i_pcs x r = PAbsent) /\ i_meta x = false) /\
+  (no_fault x -> no_absent x -> no_timeout x ->
+     (forall r, (r < i_W x)%nat -> i_pcs x r = PDone) /\ ((0 < i_W x)%nat -> i_meta x = true)).
+Proof.
+  intros HF HD Hx Hq.
+  assert (HT : forall r, (r < i_W x)%nat -> i_pcs x r = PDone \/ i_pcs x r = PRaised \/ i_pcs x r = PAbsent).
+  { intros r Hr. destruct (live (i_pcs x r)) eqn:Hl; [|exact (not_live_cases _ Hl)].
+    destruct (rank_never_stuck _ _ _ _ _ r HF HD Hx Hr Hl) as [He|He]; unfold enabled in He; rewrite Hq in He; discriminate. }
+  split; [exact HT|]. split.
+  - intros HG. destruct (error_reaches_everyone_gen _ _ _ _ _ HF HD Hx HG) as (H1 & _ & H3).
+    split; [|exact H3]. intros r Hr. destruct (HT r Hr) as [E|E]; [destruct (H1 r Hr E)|exact E].
+  - intros Hn HNA Hnt.
+    assert (Hq' : quiescent_inst (grun (ginit st0 h) sch) i) by (intros r; apply Hq).
+    exact (proj1 (proj2 (complete_schedule_outcomes _ _ _ _ _ HF HD Hx Hq')) Hn HNA Hnt).
 Qed.
 
 (* independence, as a statement about whole runs: a schedule made only of steps of other instances
    changes neither instance i nor any key under its prefix *)
 Lemma instances_independent s sch i x : NoDup (map i_prefix (g_insts s)) ->
-  nth_error (g_insts s) i = Some x -> Forall (fun c => fst c <> i) sch ->
+  nth_error (g_insts s) i = Some x -> Forall (fun c => c_inst c <> i) sch ->
   nth_error (g_insts (grun s sch)) i = Some x /\
   forall q, st_get (g_store (grun s sch)) (i_prefix x, q) = st_get (g_store s) (i_prefix x, q).
 Proof.
-  revert s. induction sch as [|[j r] sch IH]; intros s ND Hx HFa; cbn [grun].
+  revert s. induction sch as [|c sch IH]; intros s ND Hx HFa; cbn [grun].
   - auto.
-  - inversion HFa as [|c l Hc Hl]. subst. cbn in Hc.
-    destruct (gstep_independent s j r i x ND Hx (fun E => Hc (eq_sym E))) as [H1 H2].
-    assert (ND' : NoDup (map i_prefix (g_insts (fst (gstep s (j, r)))))).
-    { destruct (gstep_cases s (j, r)) as [(E & _ & _)|(x0 & st' & x' & o & Hn & Hs & E)]; rewrite E; [exact ND|].
-      cbn [fst snd g_insts] in *. pose proof (istep_frame _ _ _ _ _ _ Hs) as (Fp & _).
+  - inversion HFa as [|c' l Hc Hl]. subst.
+    destruct (gstep_independent s c i x ND Hx (fun E => Hc (eq_sym E))) as [H1 H2].
+    assert (ND' : NoDup (map i_prefix (g_insts (fst (gstep s c))))).
+    { destruct (gstep_cases s c) as [(E & _ & _)|(x0 & st' & x' & o & Hn & Hs & E)]; rewrite E; [exact ND|].
+      cbn [fst snd g_insts] in *. pose proof (iact_frame _ _ _ _ _ _ _ Hs) as (Fp & _).
       rewrite (map_upd_same i_prefix _ _ x0 x' Hn Fp). exact ND. }
     destruct (IH _ ND' H1 Hl) as [H3 H4]. split; [exact H3|]. intros q. rewrite H4. apply H2.
 Qed.
@@ -680,18 +1100,146 @@ Proof.
   rewrite E. discriminate.
 Qed.
 
-(* ------------------------------------------------------------------ termination under round-robin *)
-Lemma istep_measure st x r st' x' o : istep st x r = Some (st', x', o) ->
+(* ------------------------------------------------------------------ the history variable i_tmo *)
+(* a timeout step of rank r of instance i: what it does *)
+Lemma timeout_step_effect s i r : enabled s (i, r, KTimeout) = true ->
+  exists x, nth_error (g_insts s) i = Some x /\ (r < i_W x)%nat /\
+    ((r = 0%nat /\ i_pcs x r = PArrive /\ snd (gstep s (i, r, KTimeout)) = Some (OTimeout (i_prefix x) (peers (i_W x)))) \/
+     (r <> 0%nat /\ i_pcs x r = PDepart /\ snd (gstep s (i, r, KTimeout)) = Some (OTimeout (i_prefix x) [0%nat]))) /\
+    fst (gstep s (i, r, KTimeout)) =
+      {| g_store := g_store s; g_insts := upd (g_insts s) i (set_tmo (set_pc x r PHandler) r) |}.
+Proof.
+  unfold enabled. destruct (gstep_cases s (i, r, KTimeout)) as [(_ & E & _)|(x & st' & x' & o & Hn & Hs & E)].
+  - rewrite E. discriminate.
+  - intros _. unfold c_inst, c_rank, c_kind in *. cbn [fst snd iact] in *.
+    destruct (itimeout_spec _ _ _ _ _ _ Hs) as (Hr & -> & -> & Hsite).
+    exists x. split; [exact Hn|]. split; [exact Hr|]. rewrite E. cbn [fst snd]. split; [|reflexivity].
+    destruct Hsite as [(A & B & C)|(A & B & C)]; [left|right]; rewrite C; auto.
+Qed.
+
+Lemma gstep_tmo_mono s c i x r : nth_error (g_insts s) i = Some x -> i_tmo x r = true ->
+  exists y, nth_error (g_insts (fst (gstep s c))) i = Some y /\ i_tmo y r = true.
+Proof.
+  intros Hx Ht. destruct (gstep_cases s c) as [(E & _ & _)|(x0 & st' & x' & o & Hn & Hs & E)].
+  - rewrite E. exists x. auto.
+  - rewrite E. cbn [fst g_insts]. rewrite nth_error_upd, Hn.
+    destruct (Nat.eqb_spec (c_inst c) i) as [Ei|Ei]; [|exists x; auto].
+    subst i. rewrite Hn in Hx. inversion Hx. subst x0. exists x'. split; [reflexivity|].
+    destruct (c_kind c); cbn [iact] in Hs.
+    + rewrite (proj2 (istep_frame2 _ _ _ _ _ _ Hs)). exact Ht.
+    + destruct (itimeout_spec _ _ _ _ _ _ Hs) as (_ & _ & -> & _). cbn [i_tmo set_tmo set_pc].
+      destruct (Nat.eqb r (c_rank c)); auto.
+Qed.
+
+Lemma grun_tmo_mono s sch i x r : nth_error (g_insts s) i = Some x -> i_tmo x r = true ->
+  exists y, nth_error (g_insts (grun s sch)) i = Some y /\ i_tmo y r = true.
+Proof.
+  revert s x. induction sch as [|c sch IH]; intros s x Hx Ht; cbn [grun]; [exists x; auto|].
+  destruct (gstep_tmo_mono s c i x r Hx Ht) as (y & Hy & Hty). exact (IH _ _ Hy Hty).
+Qed.
+
+(* a schedule without timeout choices sets no flag *)
+Lemma gstep_no_timeout_flag s c : is_timeout c = false ->
+  (forall i x, nth_error (g_insts s) i = Some x -> forall r, i_tmo x r = false) ->
+  (forall i x, nth_error (g_insts (fst (gstep s c))) i = Some x -> forall r, i_tmo x r = false).
+Proof.
+  intros Hc H. destruct (gstep_cases s c) as [(E & _ & _)|(x0 & st' & x' & o & Hn & Hs & E)]; rewrite E; [exact H|].
+  cbn [fst g_insts]. intros i x Hx r. rewrite nth_error_upd, Hn in Hx.
+  destruct (Nat.eqb_spec (c_inst c) i) as [Ei|Ei]; [|exact (H _ _ Hx r)].
+  inversion Hx. subst x'. unfold is_timeout in Hc. destruct (c_kind c); [|discriminate]. cbn [iact] in Hs.
+  rewrite (proj2 (istep_frame2 _ _ _ _ _ _ Hs)). exact (H _ _ Hn r).
+Qed.
+
+Lemma timeout_free_schedule st0 h sch i x : Forall (fun c => is_timeout c = false) sch ->
+  nth_error (g_insts (grun (ginit st0 h) sch)) i = Some x -> forall r, i_tmo x r = false.
+Proof.
+  intros HFa. assert (H0 : forall i x, nth_error (g_insts (ginit st0 h)) i = Some x -> forall r, i_tmo x r = false).
+  { intros j y Hy r. cbn in Hy. rewrite nth_error_map in Hy. destruct (nth_error h j); [|discriminate].
+    inversion Hy. reflexivity. }
+  revert H0. generalize (ginit st0 h). induction sch as [|c sch IH]; intros s H0; cbn [grun].
+  - intros Hx. exact (H0 _ _ Hx).
+  - inversion HFa as [|c' l Hc Hl]. subst. apply (IH Hl). apply gstep_no_timeout_flag; assumption.
+Qed.
+
+(* what a timeout step of rank r does, and what follows in EVERY continuation: r stands at a store.wait; the wait
+   raises (operation OTimeout, store unchanged); r's next step is report_error (its key is set to an error text) and
+   leaves r Raised; in every later state r is in the handler or Raised - never Done - and once Raised its key holds
+   the error *)
+Lemma timeout_raises_and_reports st0 h sch i r : fresh st0 h -> distinct_prefixes h ->
+  let s := grun (ginit st0 h) sch in
+  enabled s (i, r, KTimeout) = true ->
+  let s1 := fst (gstep s (i, r, KTimeout)) in
+  (exists x, nth_error (g_insts s) i = Some x /\ (r < i_W x)%nat /\ g_store s1 = g_store s /\
+     ((r = 0%nat /\ i_pcs x r = PArrive /\ snd (gstep s (i, r, KTimeout)) = Some (OTimeout (i_prefix x) (peers (i_W x)))) \/
+      (r <> 0%nat /\ i_pcs x r = PDepart /\ snd (gstep s (i, r, KTimeout)) = Some (OTimeout (i_prefix x) [0%nat]))) /\
+     snd (gstep s1 (i, r, KStep)) = Some (OSet (i_prefix x) r VErr)) /\
+  (forall sch2 y, nth_error (g_insts (grun s1 sch2)) i = Some y ->
+     i_tmo y r = true /\ (i_pcs y r = PHandler \/ i_pcs y r = PRaised) /\ i_pcs y r <> PDone /\
+     (i_pcs y r = PRaised -> st_get (g_store (grun s1 sch2)) (kz y r) = Some VErr)).
+Proof.
+  intros HF HD s He s1.
+  destruct (timeout_step_effect s i r He) as (x & Hx & Hr & Hsite & Es1).
+  assert (Hx1 : nth_error (g_insts s1) i = Some (set_tmo (set_pc x r PHandler) r)).
+  { unfold s1. rewrite Es1. cbn [g_insts]. rewrite nth_error_upd, Nat.eqb_refl, Hx. reflexivity. }
+  split.
+  - exists x. split; [exact Hx|]. split; [exact Hr|]. split; [unfold s1; rewrite Es1; reflexivity|].
+    split; [exact Hsite|].
+    unfold gstep, c_inst, c_rank, c_kind. cbn [fst snd]. rewrite Hx1. cbn [iact].
+    rewrite istep_unfold by exact Hr. cbn [i_pcs set_tmo set_pc]. rewrite Nat.eqb_refl. reflexivity.
+  - intros sch2 y Hy.
+    assert (Hreach : grun s1 sch2 = grun (ginit st0 h) (sch ++ (i, r, KTimeout) :: sch2)).
+    { unfold s1, s. clear. revert sch2. generalize (ginit st0 h). induction sch as [|c sch IH]; intros g sch2; cbn [grun app]; [reflexivity|].
+      apply IH. }
+    assert (Ht1 : i_tmo (set_tmo (set_pc x r PHandler) r) r = true) by (cbn [i_tmo set_tmo]; rewrite Nat.eqb_refl; reflexivity).
+    destruct (grun_tmo_mono s1 sch2 i _ r Hx1 Ht1) as (y' & Hy' & Hty). rewrite Hy in Hy'. inversion Hy'. subst y'.
+    rewrite Hreach in Hy. pose proof (reach_inv _ _ _ _ _ HF HD Hy) as HI. rewrite <- Hreach in HI.
+    destruct (inv_timed_out_rank _ _ r HI Hty) as (_ & Hp & Hk).
+    split; [exact Hty|]. split; [exact Hp|]. split; [destruct Hp as [E|E]; rewrite E; discriminate|exact Hk].
+Qed.
+
+(* an ABSENT rank (it raised inside async_take; it has no background thread and sets no key): nobody succeeds and
+   nothing is committed, whoever is absent; without a fault in the plan a rank can raise only after some timeout
+   step.  LEADER absent vs PEER absent: if the leader is absent nobody ever writes the leader's key, so no error
+   text can reach anybody - EVERY peer that raises does so through its own timeout (or its own I/O failure); if a
+   peer is absent the leader's timeout is enough, the other peers may read the leader's error key (example in
+   props/C13.v). *)
+Lemma absent_rank_means_nobody_succeeds st0 h sch i x : fresh st0 h -> distinct_prefixes h ->
+  nth_error (g_insts (grun (ginit st0 h) sch)) i = Some x ->
+  has_absent x ->
+  (forall r, (r < i_W x)%nat -> i_pcs x r <> PDone) /\
+  i_meta x = false /\
+  (forall r, (r < i_W x)%nat -> absent x r = true -> i_pcs x r = PAbsent /\ st_get (g_store (grun (ginit st0 h) sch)) (kz x r) = None) /\
+  (no_fault x -> forall r, (r < i_W x)%nat -> i_pcs x r = PRaised -> timed_out x) /\
+  (absent x 0 = true -> forall r, (r < i_W x)%nat -> i_pcs x r = PRaised -> i_tmo x r = true \/ iofails x r = true).
+Proof.
+  intros HF HD Hx Ha. pose proof (reach_inv _ _ _ _ _ HF HD Hx) as HI.
+  assert (HG : global_cause x) by (right; left; exact Ha).
+  split; [exact (inv_global_no_done _ _ HI HG)|]. split; [exact (inv_global_no_meta _ _ HI HG)|]. split; [|split].
+  - intros r Hr Hab. destruct (inv_absent _ _ HI r Hr) as [[_ A1] _]. specialize (A1 Hab). split; [exact A1|].
+    destruct r as [|n].
+    + pose proof (inv_leader _ _ HI) as HL. unfold leader_ok in HL. rewrite A1 in HL. exact (proj1 HL).
+    + pose proof (inv_peer _ _ HI (S n) ltac:(lia)) as HP. unfold peer_ok in HP. rewrite A1 in HP. exact (proj1 HP).
+  - intros Hn r Hr Hp. destruct (raise_has_cause _ _ _ _ _ HF HD Hx r Hr Hp) as [H|H]; [|exact H].
+    destruct (no_fault_not_has_fault _ Hn H).
+  - intros H0 r Hr Hp. apply (inv_absent_leader _ _ HI ltac:(lia) H0 r Hr). rewrite Hp. reflexivity.
+Qed.
+
+(* ------------------------------------------------------------------ termination *)
+Lemma iact_measure k st x r st' x' o : iact k st x r = Some (st', x', o) ->
   (forall q, q <> r -> i_pcs x' q = i_pcs x q) /\
   (pc_measure (i_W x) (i_pcs x' r) < pc_measure (i_W x) (i_pcs x r))%nat.
 Proof.
-  intros Hs. unfold istep in Hs. destruct (r <? i_W x)%nat eqn:E; cbn [negb] in Hs; [|discriminate]. clear E.
-  destruct (i_pcs x r) eqn:Hpc; istep_cases Hs.
-  all: repeat match goal with H : (_ <? _)%nat = true |- _ => apply Nat.ltb_lt in H
-                         | H : (_ <? _)%nat = false |- _ => apply Nat.ltb_ge in H end.
-  all: split; [intros q Hq; cbn [i_pcs set_pc set_iodone set_meta];
-               destruct (Nat.eqb_spec q r); [contradiction|reflexivity]|].
-  all: cbn [i_pcs set_pc set_iodone set_meta]; rewrite Nat.eqb_refl; cbn [pc_measure]; lia.
+  destruct k; cbn [iact]; intros Hs.
+  - unfold istep in Hs. destruct (r <? i_W x)%nat eqn:E; cbn [negb] in Hs; [|discriminate]. clear E.
+    destruct (i_pcs x r) eqn:Hpc; istep_cases Hs.
+    all: repeat match goal with H : (_ <? _)%nat = true |- _ => apply Nat.ltb_lt in H
+                           | H : (_ <? _)%nat = false |- _ => apply Nat.ltb_ge in H end.
+    all: split; [intros q Hq; cbn [i_pcs set_pc set_iodone set_meta];
+                 destruct (Nat.eqb_spec q r); [contradiction|reflexivity]|].
+    all: cbn [i_pcs set_pc set_iodone set_meta]; rewrite Nat.eqb_refl; cbn [pc_measure]; lia.
+  - destruct (itimeout_spec _ _ _ _ _ _ Hs) as (Hr & _ & -> & Hsite). cbn [i_pcs set_tmo set_pc]. split.
+    + intros q Hq. destruct (Nat.eqb_spec q r); [contradiction|reflexivity].
+    + rewrite Nat.eqb_refl. destruct Hsite as [(_ & -> & _)|(_ & -> & _)]; cbn [pc_measure]; lia.
 Qed.
 
 Lemma list_sum_map_le {A} (f g : A -> nat) l : (forall q, In q l -> (f q <= g q)%nat) ->
@@ -711,11 +1259,11 @@ Proof.
   destruct Hin as [->|Hin]; [lia|]. specialize (IH (fun q Hq => H q (or_intror Hq)) Hin Hlt). lia.
 Qed.
 
-Lemma inst_measure_step st x r st' x' o : istep st x r = Some (st', x', o) ->
+Lemma inst_measure_step k st x r st' x' o : iact k st x r = Some (st', x', o) ->
   (inst_measure x' < inst_measure x)%nat.
 Proof.
-  intros Hs. pose proof (istep_frame _ _ _ _ _ _ Hs) as (_ & FW & _ & _ & Hr & _).
-  destruct (istep_measure _ _ _ _ _ _ Hs) as [Hoth Hlt].
+  intros Hs. pose proof (iact_frame _ _ _ _ _ _ _ Hs) as (_ & FW & _ & _ & Hr & _).
+  destruct (iact_measure _ _ _ _ _ _ _ Hs) as [Hoth Hlt].
   unfold inst_measure. rewrite FW. apply (list_sum_map_lt _ _ _ r).
   - intros q _. destruct (Nat.eq_dec q r) as [->|Hq]; [lia|]. rewrite (Hoth q Hq). lia.
   - apply in_seq. lia.
@@ -730,12 +1278,13 @@ Proof.
   - specialize (IH i Hn Hlt). lia.
 Qed.
 
+(* every enabled choice - normal step or timeout - strictly decreases the measure *)
 Lemma gstep_measure_lt s c : enabled s c = true -> (gmeasure (fst (gstep s c)) < gmeasure s)%nat.
 Proof.
   unfold enabled. destruct (gstep_cases s c) as [(_ & E & _)|(x & st' & x' & o & Hn & Hs & E)].
   - rewrite E. discriminate.
   - intros _. rewrite E. unfold gmeasure. cbn [fst g_insts].
-    apply (list_sum_upd_lt inst_measure _ _ x x' Hn). exact (inst_measure_step _ _ _ _ _ _ Hs).
+    apply (list_sum_upd_lt inst_measure _ _ x x' Hn). exact (inst_measure_step _ _ _ _ _ _ _ Hs).
 Qed.
 
 Lemma gstep_measure_le s c : (gmeasure (fst (gstep s c)) <= gmeasure s)%nat.
@@ -754,33 +1303,43 @@ Qed.
 Lemma grun_app s a b : grun s (a ++ b) = grun (grun s a) b.
 Proof. revert s. induction a as [|c a IH]; intros s; cbn; [reflexivity|apply IH]. Qed.
 
-Lemma gstep_all_choices s c : all_choices (fst (gstep s c)) = all_choices s.
+(* a schedule every choice of which is enabled when it is taken *)
+Fixpoint effective (s : gstate) (sch : list choice) : bool :=
+  match sch with
+  | [] => true
+  | c :: t => enabled s c && effective (fst (gstep s c)) t
+  end.
+
+(* no infinite executions: from any state, a schedule of enabled choices (normal steps and timeouts, any instances,
+   any order) has at most gmeasure s elements *)
+Lemma effective_bounded s sch : effective s sch = true -> (length sch + gmeasure (grun s sch) <= gmeasure s)%nat.
 Proof.
-  unfold all_choices. destruct (gstep_cases s c) as [(E & _ & _)|(x & st' & x' & o & Hn & Hs & E)]; rewrite E; [reflexivity|].
-  cbn [fst g_insts]. pose proof (istep_frame _ _ _ _ _ _ Hs) as (_ & FW & _).
-  rewrite (map_upd_same i_W _ _ x x' Hn FW). reflexivity.
+  revert s. induction sch as [|c sch IH]; intros s H; cbn [effective grun length] in *; [lia|].
+  apply andb_true_iff in H. destruct H as [H1 H2]. specialize (IH _ H2). pose proof (gstep_measure_lt s c H1). lia.
 Qed.
 
-Lemma grun_all_choices s sch : all_choices (grun s sch) = all_choices s.
-Proof.
-  revert s. induction sch as [|c sch IH]; intros s; cbn; [reflexivity|]. rewrite IH. apply gstep_all_choices.
-Qed.
-
-Lemma in_choices_from i0 ws i w r : nth_error ws i = Some w -> (r < w)%nat -> In ((i0 + i)%nat, r) (choices_from i0 ws).
+Lemma in_choices_from i0 ws i w r : nth_error ws i = Some w -> (r < w)%nat -> In ((i0 + i)%nat, r, KStep) (choices_from i0 ws).
 Proof.
   revert i0 i. induction ws as [|a ws IH]; intros i0 [|i] Hn Hr; cbn in *; try discriminate.
-  - inversion Hn. subst. apply in_or_app. left. rewrite Nat.add_0_r. apply in_map. apply in_seq. lia.
+  - inversion Hn. subst. apply in_or_app. left. rewrite Nat.add_0_r.
+    apply (in_map (fun r => (i0, r, KStep))). apply in_seq. lia.
   - apply in_or_app. right. replace (i0 + S i)%nat with (S i0 + i)%nat by lia. apply IH; assumption.
 Qed.
 
-(* a step outside all_choices is never enabled *)
-Lemma enabled_in_all_choices s c : enabled s c = true -> In c (all_choices s).
+(* an enabled normal step is in all_choices, an enabled choice of any kind in all_choices_t *)
+Lemma enabled_in_all_choices s i r k : enabled s (i, r, k) = true -> In (i, r, KStep) (all_choices s).
 Proof.
-  unfold enabled. destruct (gstep_cases s c) as [(_ & E & _)|(x & st' & x' & o & Hn & Hs & E)].
+  unfold enabled. destruct (gstep_cases s (i, r, k)) as [(_ & E & _)|(x & st' & x' & o & Hn & Hs & E)].
   - rewrite E. discriminate.
-  - intros _. pose proof (istep_frame _ _ _ _ _ _ Hs) as (_ & _ & _ & _ & Hr & _).
-    destruct c as [i r]. cbn [fst snd] in *. unfold all_choices.
+  - intros _. pose proof (iact_frame _ _ _ _ _ _ _ Hs) as (_ & _ & _ & _ & Hr & _).
+    unfold c_inst, c_rank in *. cbn [fst snd] in *. unfold all_choices.
     apply (in_choices_from 0 _ i (i_W x) r); [|exact Hr]. rewrite nth_error_map, Hn. reflexivity.
+Qed.
+
+Lemma in_with_timeouts l i r k : In (i, r, KStep) l -> In (i, r, k) (with_timeouts l).
+Proof.
+  intros H. unfold with_timeouts. apply in_flat_map. exists (i, r, KStep). split; [exact H|].
+  destruct k; cbn; auto.
 Qed.
 
 Lemma run_round s l :
@@ -794,38 +1353,92 @@ Proof.
       right. split; [exact H1|]. intros c' [<-|Hc']; auto.
 Qed.
 
-Lemma quiet_stays s sch : (forall c, enabled s c = false) -> grun s sch = s.
+Lemma rounds_of_fixpoint s l n : grun s l = s -> grun s (rounds_of l n) = s.
+Proof. intros H. induction n as [|n IH]; cbn [rounds_of]; [reflexivity|]. rewrite grun_app, H. exact IH. Qed.
+
+(* round-robin over ANY fixed list of choices: after more rounds than the measure, no choice of the list is enabled *)
+Lemma rounds_of_quiesce l n : forall s, (gmeasure s < n)%nat ->
+  forall c, In c l -> enabled (grun s (rounds_of l n)) c = false.
 Proof.
-  intros H. induction sch as [|c sch IH]; cbn; [reflexivity|]. rewrite (disabled_step_is_noop s c (H c)). exact IH.
+  induction n as [|n IH]; intros s Hm c Hc; [lia|]. cbn [rounds_of]. rewrite grun_app.
+  destruct (run_round s l) as [Hlt|[He Hq]].
+  - apply IH; [lia|exact Hc].
+  - rewrite He, (rounds_of_fixpoint s l n He). exact (Hq c Hc).
 Qed.
 
-Lemma rounds_of_quiesce n : forall s, (gmeasure s < n)%nat ->
-  forall c, enabled (grun s (rounds_of (all_choices s) n)) c = false.
+Lemma all_choices_grun s sch : all_choices (grun s sch) = all_choices s.
 Proof.
-  induction n as [|n IH]; intros s Hm c; [lia|]. cbn [rounds_of]. rewrite grun_app.
-  destruct (run_round s (all_choices s)) as [Hlt|[He Hq]].
-  - remember (grun s (all_choices s)) as s' eqn:Es.
-    assert (Ea : all_choices s = all_choices s') by (rewrite Es; symmetry; apply grun_all_choices).
-    rewrite Ea. apply IH. lia.
-  - assert (Hall : forall c', enabled s c' = false).
-    { intros c'. destruct (enabled s c') eqn:E; [|reflexivity].
-      rewrite (Hq c' (enabled_in_all_choices s c' E)) in E. discriminate. }
-    rewrite He, (quiet_stays s _ Hall). apply Hall.
+  revert s. induction sch as [|c sch IH]; intros s; cbn [grun]; [reflexivity|]. rewrite IH.
+  unfold all_choices. destruct (gstep_cases s c) as [(E & _ & _)|(x & st' & x' & o & Hn & Hs & E)]; rewrite E; [reflexivity|].
+  cbn [fst g_insts]. pose proof (iact_frame _ _ _ _ _ _ _ Hs) as (_ & FW & _).
+  rewrite (map_upd_same i_W _ _ x x' Hn FW). reflexivity.
 Qed.
 
-Lemma rounds_quiesce s : forall c, enabled (grun s (rounds s (S (gmeasure s)))) c = false.
-Proof. unfold rounds. apply rounds_of_quiesce. lia. Qed.
+(* normal steps only: after gmeasure s + 1 round-robin rounds no NORMAL step is enabled *)
+Lemma rounds_quiesce s : forall i r, enabled (grun s (rounds s (S (gmeasure s)))) (i, r, KStep) = false.
+Proof.
+  intros i r. destruct (enabled (grun s (rounds s (S (gmeasure s)))) (i, r, KStep)) eqn:E; [|reflexivity].
+  pose proof (enabled_in_all_choices _ _ _ _ E) as Hin. unfold rounds in Hin. rewrite all_choices_grun in Hin.
+  unfold rounds in E. rewrite (rounds_of_quiesce (all_choices s) (S (gmeasure s)) s ltac:(lia) _ Hin) in E. discriminate.
+Qed.
 
-(* any schedule, continued fairly (round-robin) for long enough, ends with the outcomes the property demands *)
+(* normal steps and fair timeouts: after gmeasure s + 1 rounds NOTHING is enabled *)
+Lemma rounds_t_quiesce s : forall c, enabled (grun s (rounds_t s (S (gmeasure s)))) c = false.
+Proof.
+  intros [[i r] k]. destruct (enabled (grun s (rounds_t s (S (gmeasure s)))) (i, r, k)) eqn:E; [|reflexivity].
+  pose proof (enabled_in_all_choices _ _ _ _ E) as Hin. unfold rounds_t in Hin. rewrite all_choices_grun in Hin.
+  pose proof (in_with_timeouts _ i r k Hin) as Hin'.
+  unfold rounds_t in E. unfold all_choices_t in E.
+  rewrite (rounds_of_quiesce (with_timeouts (all_choices s)) (S (gmeasure s)) s ltac:(lia) _ Hin') in E. discriminate.
+Qed.
+
+(* any schedule (timeouts included), continued by round-robin over the NORMAL steps for long enough *)
 Lemma fair_completion_outcomes st0 h sch i x : fresh st0 h -> distinct_prefixes h ->
   let s := grun (ginit st0 h) sch in
   nth_error (g_insts (grun s (rounds s (S (gmeasure s))))) i = Some x ->
-  (no_fault x -> (forall r, (r < i_W x)%nat -> i_pcs x r = PDone) /\ ((0 < i_W x)%nat -> i_meta x = true)) /\
-  (has_fault x -> (forall r, (r < i_W x)%nat -> i_pcs x r = PRaised) /\ i_meta x = false).
+  (no_absent x -> forall r, (r < i_W x)%nat -> terminated (i_pcs x r) = true) /\
+  (no_fault x -> no_absent x -> no_timeout x ->
+     (forall r, (r < i_W x)%nat -> i_pcs x r = PDone) /\ ((0 < i_W x)%nat -> i_meta x = true)) /\
+  (has_fault x \/ i_tmo x 0%nat = true -> no_absent x ->
+     (forall r, (r < i_W x)%nat -> i_pcs x r = PRaised) /\ i_meta x = false).
 Proof.
   intros HF HD s Hx. subst s. rewrite <- grun_app in Hx.
   apply (complete_schedule_outcomes st0 h _ i x HF HD Hx).
   intros r. rewrite grun_app.
-  pose proof (rounds_quiesce (grun (ginit st0 h) sch) (i, r)) as H. unfold enabled in H.
-  destruct (snd (gstep _ (i, r))); [discriminate|reflexivity].
+  pose proof (rounds_quiesce (grun (ginit st0 h) sch) i r) as H. unfold enabled in H.
+  destruct (snd (gstep _ (i, r, KStep))); [discriminate|reflexivity].
+Qed.
+
+(* any schedule, continued by round-robin with fair timeouts: every background thread that exists finishes - no
+   assumption about faults or participation *)
+Lemma fair_timeout_completion_outcomes st0 h sch i x : fresh st0 h -> distinct_prefixes h ->
+  let s := grun (ginit st0 h) sch in
+  nth_error (g_insts (grun s (rounds_t s (S (gmeasure s))))) i = Some x ->
+  (forall r, (r < i_W x)%nat -> i_pcs x r = PDone \/ i_pcs x r = PRaised \/ i_pcs x r = PAbsent) /\
+  (global_cause x -> (forall r, (r < i_W x)%nat -> i_pcs x r = PRaised \/ i_pcs x r = PAbsent) /\ i_meta x = false) /\
+  (no_fault x -> no_absent x -> no_timeout x ->
+     (forall r, (r < i_W x)%nat -> i_pcs x r = PDone) /\ ((0 < i_W x)%nat -> i_meta x = true)).
+Proof.
+  intros HF HD s Hx. subst s. rewrite <- grun_app in Hx.
+  apply (all_quiescent_outcomes st0 h _ i x HF HD Hx).
+  intros r k. rewrite grun_app.
+  pose proof (rounds_t_quiesce (grun (ginit st0 h) sch) (i, r, k)) as H. unfold enabled in H.
+  destruct (snd (gstep _ (i, r, k))); [discriminate|reflexivity].
+Qed.
+
+(* the wait sites of the model's skeleton are exactly the places where the timeout step is enabled *)
+Lemma model_wait_sites : wait_sites model_skeleton =
+  [(RLeader, PhArrive, KPeers, WTimeoutArg); (RPeer, PhDepart, KLeader, WTimeoutArg)].
+Proof. reflexivity. Qed.
+
+Lemma timeout_enabled_iff_wait_site st x r : (r < i_W x)%nat ->
+  (itimeout st x r <> None <->
+   exists ro ph t w, site_of r (i_pcs x r) = Some (ro, ph) /\ In (ro, ph, t, w) (wait_sites model_skeleton)).
+Proof.
+  intros Hr. rewrite (itimeout_unfold st x r Hr), model_wait_sites. split.
+  - intros H. destruct (i_pcs x r); cbn [site_of]; try congruence; destruct (Nat.eqb r 0); try congruence.
+    + exists RLeader, PhArrive, KPeers, WTimeoutArg. split; [reflexivity|left; reflexivity].
+    + exists RPeer, PhDepart, KLeader, WTimeoutArg. split; [reflexivity|right; left; reflexivity].
+  - intros (ro & ph & t & w & Hs & Hin). destruct (i_pcs x r); cbn [site_of] in Hs; try discriminate;
+      destruct (Nat.eqb r 0); try discriminate.
 Qed.
